@@ -9,7 +9,7 @@ import vf
 SPEC = {
     "uses_gen": True,     # balances use the regenerated UxOut.CoinHours / AddUint64
     "cmd": "c07",
-    "budget": (10, 100),
+    "budget": (8, 100),
     "header": "From Sky Require Import Base.Uint Model.ArithSpec Model.Views.\nFrom Coq Require Import List.\nImport ListNotations.\nOpen Scope Z_scope.",
     "corr": "C07_corr.v",
     "prop": "C07_prop.v",
